@@ -130,19 +130,25 @@ def vdiag(i):
     return VO([('cls', VS(i['cls'])), ('code', VN(i['code'] or 0)), ('file', VS(p.get('file') or '')), ('line', VN(s[0])), ('col', VN(s[1]))])
 
 
-def voutcome(o, parts=('errors', 'defs', 'refs', 'ast', 'imports')):
+def voutcome(o, parts=('errors', 'defs', 'refs', 'ast', 'imports'), loose_app=False):
     if o['outcome'] == 'internal':
         return VO([('outcome', VS('internal'))])
     if o['outcome'] == 'app':
         i = o['exc']['item']
         p = i['pos'] or {}
         s = p.get('start') or [0, 0]
+        if loose_app:
+            return VO([('outcome', VS('app')), ('cls', VS(i['cls'])), ('code', VN(i['code'] or 0))])
         return VO([('outcome', VS('app')), ('cls', VS(i['cls'])), ('code', VN(i['code'] or 0)), ('file', VS(p.get('file') or '')),
                    ('line', VN(s[0])), ('col', VN(s[1]))])
     errs = o['exc']['items'] if o['outcome'] == 'list' else []
     fields = [('outcome', VS(o['outcome']))]
     if 'errors' in parts:
         fields.append(('errors', VL([vdiag(i) for i in errs])))
+    if 'error_codes' in parts:     # position-free view (cyclic imports: the depth at which Python's recursion limit hits is not modelled)
+        fields.append(('error_codes', VL([VN(c) for c in sorted(set(i['code'] or 0 for i in errs))])))
+    if 'def_names' in parts:
+        fields.append(('def_names', vstrs(['.'.join(d['ns'] + [d['name']]) for d in o['defs']])))
     if 'defs' in parts:
         fields.append(('defs', VL([vdecl(d) for d in o['defs']])))
     if 'refs' in parts:
